@@ -55,6 +55,16 @@ def run(tier, work):
         dl, _ = K.render(gr, K.PLAIN)
         ql, _ = K.query_lines(gr, K.PLAIN)
         texts.append(("classes", "\n".join(dl + ql) + "\n"))
+    # the same class group under two different modules: same class and method names, identical signatures, two frames
+    for gr in graphs[:6 if tier == "quick" else 60]:
+        lines = []
+        for mod in ("Outer", "Inner"):
+            dl, _ = K.render(gr, K.PLAIN, wrap=[mod])
+            lines += dl
+        for mod in ("Outer", "Inner"):
+            ql, _ = K.query_lines(gr, K.PLAIN, prefix=mod + "::")
+            lines += ql
+        texts.append(("classes-two-frames", "\n".join(lines) + "\n"))
     nbb = 3
     nw = 2 if tier == "quick" else 6
     bjobs, wjobs = [], []
